@@ -551,6 +551,10 @@ func (e *ext) c06StmtCodes(dir, recv, fn string) []int {
 				} else {
 					codes = append(codes, 8)
 				}
+			case strings.HasSuffix(cond, ".UID") && strings.Contains(cond, ".UID != ") && v.Else == nil && v.Init == nil &&
+				len(body.List) == 3 && c06HasCall(body.List[0], ".deletePod") && c06HasCall(body.List[1], ".updatePod") && c06HasReturn(body.List[2]) &&
+				strings.Contains(c06Src(e.fset, body.List[1]), "updatePod(nil, "):
+				codes = append(codes, 12)
 			case cond == "err != nil" && onlyReturn:
 				codes = append(codes, 3)
 			case strings.Contains(cond, "len(") && strings.Contains(cond, "NUMANodeResources) == 0 &&") && strings.HasSuffix(cond, "IsEmpty()") && onlyReturn:
